@@ -85,7 +85,7 @@ def main():
         obs.append(Obligation('setup', 'inconclusive', str(e)[-1500:]))
     cov = dict(explanation='Tallies are sums over the set of yielded deals of functions of the winner flags. L-enum: that set is exactly the set of legal deals (all 5+2n cards distinct, one combo per player) - a definition '
                            'symmetric under a suit permutation sigma applied to flop and ranges, and under a permutation of the players. sigma and player permutations are therefore bijections of the deal set; L-suit says every '
-                           'player\'s hand value is unchanged by sigma, L-flags characterises each flag by the player's own hand against the minimum over all players, without reference to the seat, so flags, hands and winner_len follow the players under reordering; hence every per-deal contribution is carried to the corresponding deal, '
+                           'player\'s hand value is unchanged by sigma, L-flags characterises each flag by the own hand of the player against the minimum over all players, without reference to the seat, so flags, hands and winner_len follow the players under reordering; hence every per-deal contribution is carried to the corresponding deal, '
                            'and the tallies are equal / permuted. L-pot gives the one-pot clause. The composition is an argument, not a solver step; a direct two-run relational query would need both complete enumerations in one formula.',
                evaluations=sum(o.queries for o in obs), distinct_nontrivial=len(obs),
                samples=[dict(lemma=o.name, status=o.status, detail=o.detail[:200]) for o in obs],
